@@ -1425,7 +1425,8 @@ func funcJn(l, r float64) float64 {
 }
 
 func funcLdexp(l, r float64) float64 {
-	return math.Ldexp(l, int(r))
+	// Exponents beyond ±4096 saturate, and math.Ldexp overflows near math.MinInt.
+	return math.Ldexp(l, int(min(max(r, -4096), 4096)))
 }
 
 func funcYn(l, r float64) float64 {
